@@ -9,6 +9,8 @@ facts means more behaviours are considered, never fewer.
 """
 import z3
 
+from .values import tid
+
 from . import spec
 from .values import (Builtin, Obj, OutsideSubset, PyExc, Sym, SymSeq, is_sym,
                      mk, z3int, z3str, StreamV, SymDict)
@@ -117,7 +119,7 @@ class FsState(object):
         return t
 
     def _kind_axioms(self, sigma, p):
-        key = ('kind_ax', sigma.get_id(), p.get_id())
+        key = ('kind_ax', tid(sigma), tid(p))
         ctx = self.ctx
         if key in ctx.notes:
             return
@@ -133,7 +135,7 @@ class FsState(object):
         transition that touched paths T leaves lkind/kind of q unchanged when
         q is none of T and no element of T is a path-prefix of q."""
         for pre, post, touched in self.transitions:
-            key = ('frame', pre.get_id(), q.get_id())
+            key = ('frame', tid(pre), tid(q))
             if key in self.ctx.notes:
                 continue
             self.ctx.notes[key] = True
@@ -562,6 +564,9 @@ def register(lib):
             ('shutil.rmtree', m_rmtree), ('shutil.move', m_shutil_move),
             ('os.getuid', m_getuid), ('os.isatty', m_isatty)):
         r[name] = B_(name, fn)
+    r['os.EX_OK'] = 0
+    r['os.EX_USAGE'] = 64
+    r['os.EX_IOERR'] = 74
     r['os.environ'] = B_('os.environ', None)   # replaced per path, see below
     r['sys.stdout'] = StreamV('stdout')
     r['sys.stderr'] = StreamV('stderr')
